@@ -1,6 +1,7 @@
 import NemoVerif.Drive.Common
 import NemoVerif.Models.Dnf
 import NemoVerif.Models.GroupExpand
+import NemoVerif.Models.GroupVM
 
 namespace NemoVerif.Drive.C07
 open Lean NemoVerif NemoVerif.Drive NemoVerif.Dnf NemoVerif.GroupExpand
@@ -88,6 +89,21 @@ def handle (op : String) (j : Json) : Except String Json := do
       ("readback", optClausesToJson (readBack real)),
       ("readback_model", optClausesToJson (readBack mine)),
       ("distinct", .bool (labelsDistinct real))])
+  | "vm" =>
+    -- head-level machine on the clauses of `normalize g`: per sequence (with its recorded tie-breaks) the marker flags
+    -- and the heads (position, status) after every event
+    let g ← gOfJson (← j.getObjVal? "g")
+    let d := toDnf (normalize g)
+    let seqs ← (← j.getObjVal? "seqs").getArr?
+    let chs ← (← j.getObjVal? "choices").getArr?
+    let outs ← (seqs.toList.zip chs.toList).mapM fun (s, c) => do
+      let es ← natsOfJson s
+      let ch ← natsOfJson c
+      let tr := GroupVM.traceVM d (GroupVM.init d) es ch
+      pure (Json.arr (tr.map fun (m, hs) => Json.mkObj [("m", Json.bool m),
+        ("heads", Json.arr (hs.map fun (p, st) => Json.arr #[nat p, nat st]).toArray)]).toArray)
+    pure (Json.mkObj [("runs", Json.arr outs.toArray), ("init", Json.arr ((GroupVM.renderHeads d (GroupVM.init d)).map fun (p, st) => Json.arr #[nat p, nat st]).toArray),
+      ("nonempty", Json.bool (d.all fun c => !c.isEmpty))])
   | _ => throw s!"unknown op C07.{op}"
 
 end NemoVerif.Drive.C07
